@@ -77,3 +77,34 @@ def cases(seed, tier):
         pool = big if r.random() < 0.8 else big + bad
         ops = [r.choice(pool) for _ in range(k)]
         yield ops, r.sample(GETS, 4), r.random() < 0.2
+
+
+def parse_line(line):
+    """inverse of `line`: 'HDR <ops> | <gets>' -> (ops, gets) or None"""
+    try:
+        body = line.split(" ", 1)[1]
+        o, g = body.split("|")
+        ops = []
+        for tok in o.strip().split(";"):
+            tok = tok.strip()
+            if tok in ("-", "", "nodate"):
+                continue
+            p = tok.split(":")
+            if p[0] in ("add", "rep"):
+                ops.append((p[0], unhx(p[1]), unhx(p[2])))
+            elif p[0] == "rm":
+                ops.append(("rm", unhx(p[1])))
+            elif p[0] == "scl":
+                ops.append(("scl", None if p[1] == "-" else int(p[1])))
+            elif p[0] in ("ste", "scc"):
+                ops.append((p[0],))
+            else:
+                return None
+        gets = [unhx(x.strip()) for x in g.strip().split(";") if x.strip() not in ("-", "")]
+        return ops, gets
+    except Exception:
+        return None
+
+
+def unhx(s):
+    return b"" if s in ("e", "") else bytes.fromhex(s)
